@@ -1,4 +1,5 @@
 import Avfs.Driver.Idm
+import Avfs.Driver.Path
 /-
   avfsdrv: line-protocol driver. One input line -> exactly one output line.
   Core Lean only (links natively).
@@ -13,6 +14,8 @@ def stepLine (st : DState) (line : String) : DState × String :=
   match (line.trimAscii.toString.splitOn " ").filter (· ≠ "") with
   | "idm" :: rest => let (s, o) := Idm.exec st.idm rest; ({ st with idm := s }, o)
   | "idmspec" :: rest => let (s, o) := Idm.specExec st.idmSpec rest; ({ st with idmSpec := s }, o)
+  | "path" :: rest => (st, Path.exec rest)
+  | "pathspec" :: rest => (st, Path.specExec rest)
   | ["#"] => (st, "#")
   | _ => (st, "bad-op")
 
